@@ -1,2 +1,316 @@
-(* Text-layer components (filled in as the text model grows). *)
-let run (comp : string) (_h : (string, string) Hashtbl.t) : string = "UNKNOWN-COMPONENT " ^ comp
+(* Text-layer components run on the extracted model: tok, utf8, ws, textdiff,
+   udiff, remap, slices, inline, identify, repeat.  Trusted glue only. *)
+open Model
+open Common
+
+(* ---------- N <-> int, hex ---------- *)
+let rec pos_of_int (k : int) : positive =
+  if k <= 1 then XH else if k land 1 = 0 then XO (pos_of_int (k lsr 1)) else XI (pos_of_int (k lsr 1))
+
+let n_of_int (k : int) : n = if k <= 0 then N0 else Npos (pos_of_int k)
+
+let rec int_of_pos = function XH -> 1 | XO p -> 2 * int_of_pos p | XI p -> (2 * int_of_pos p) + 1
+let int_of_n = function N0 -> 0 | Npos p -> int_of_pos p
+
+let unhex (s : string) : n list =
+  if s = "-" then []
+  else List.init (String.length s / 2) (fun i -> n_of_int (int_of_string ("0x" ^ String.sub s (2 * i) 2)))
+
+let hex (b : n list) : string =
+  if b = [] then "-" else String.concat "" (List.map (fun x -> Printf.sprintf "%02x" (int_of_n x)) b)
+
+let join sep v = if v = [] then "-" else String.concat sep v
+let ni = nat_of_int
+let i = int_of_nat
+
+let string_of_bytes (b : n list) : string = String.init (List.length b) (fun k -> Char.chr (int_of_n (List.nth b k)))
+
+let str_of (b : n list) : string =
+  let buf = Buffer.create 16 in
+  List.iter (fun x -> Buffer.add_char buf (Char.chr (int_of_n x))) b;
+  Buffer.contents buf
+
+(* ---------- tokenizers ---------- *)
+let fmt_toks (ts : (nat * nat) list) : string = join "," (List.map (fun (s, e) -> Printf.sprintf "%d:%d" (i s) (i e)) ts)
+
+let parse_toks (s : string) : (nat * nat) list =
+  if s = "-" then []
+  else
+    List.map
+      (fun t ->
+        match String.split_on_char ':' t with
+        | [ a; b ] -> (ni (int_of_string a), ni (int_of_string b))
+        | _ -> failwith "bad token bounds")
+      (String.split_on_char ',' s)
+
+let tk_of = function
+  | "lines" -> Some TkLines
+  | "lnl" -> Some TkLinesNewlines
+  | "words" -> Some TkWords
+  | "chars" -> Some TkChars
+  | _ -> None
+
+let bytes_mode h = get h "mode" = "bytes"
+
+exception LossyOracle
+
+(* tokens of a text: the model's tokenizer, or the replayed oracle boundaries *)
+let tokens_of h (kind : string) (key : string) (text : n list) : (nat * nat) list =
+  match tk_of kind with
+  | Some k -> tokenize (bytes_mode h) k text
+  | None -> if get h key = "LOSSY" then raise LossyOracle else parse_toks (get h key)
+
+let case_tok h : string =
+  match tk_of (get h "kind") with
+  | Some k -> "toks=" ^ fmt_toks (tokenize (bytes_mode h) k (unhex (get h "text")))
+  | None -> "ORACLE"
+
+let fmt_dchars strmode (cs : dchar list) =
+  join ","
+    (List.map
+       (fun c ->
+         Printf.sprintf "%d:%d:%d" (i c.dc_start)
+           (if strmode then i c.dc_start + i (len_utf8 c.dc_cp) else i c.dc_end)
+           (int_of_n c.dc_cp))
+       cs)
+
+let case_utf8 h : string =
+  let t = unhex (get h "text") in
+  let cs = decode t in
+  let valid = valid_utf8 t in
+  Printf.sprintf "chars=%s lossy=%s valid=%d strchars=%s" (fmt_dchars false cs) (hex (lossy t))
+    (if valid then 1 else 0)
+    (if valid then fmt_dchars true cs else "invalid")
+
+let case_ws h : string =
+  let lo, hi = parse_range (get h "range") in
+  let v = ref [] in
+  for cp = hi - 1 downto lo do
+    if not (cp >= 0xD800 && cp <= 0xDFFF) && cp <= 0x10FFFF && is_whitespace (n_of_int cp) then
+      v := string_of_int cp :: !v
+  done;
+  "ws=" ^ join "," !v
+
+(* ---------- text diff ---------- *)
+let item_oracles (olda : string array) (newa : string array) : oracles =
+  let at a k = let x = i k in if x < Array.length a then Some a.(x) else None in
+  let on ii jj = match (at newa jj, at olda ii) with Some y, Some x -> Ok (String.equal y x) | _ -> Panic in
+  let same a ii jj = match (at a ii, at a jj) with Some x, Some y -> Ok (String.equal x y) | _ -> Panic in
+  { o_on = on; o_oo = same olda; o_nn = same newa }
+
+let items (text : n list) (toks : (nat * nat) list) : n list list = List.map (fun t -> tok_bytes text t) toks
+
+type tdiff = { ops : op list; probes : int; olds : n list list; news : n list list; otoks : (nat * nat) list; ntoks : (nat * nat) list; nt : bool }
+
+exception RPanic
+exception RFuel
+
+let unres = function Ok x -> x | Panic -> raise RPanic | OutOfFuel -> raise RFuel
+
+let text_diff h (kind : string) (repair : bool) : tdiff =
+  let o = unhex (get h "old") and n = unhex (get h "new") in
+  let otoks = tokens_of h kind "otoks" o and ntoks = tokens_of h kind "ntoks" n in
+  let olds = items o otoks and news = items n ntoks in
+  let oa = Array.of_list (List.map str_of olds) and na = Array.of_list (List.map str_of news) in
+  let alg = parse_alg (get h "alg") in
+  let dlo = match Hashtbl.find_opt h "dl" with Some s -> parse_opt s | None -> None in
+  let ops, c = unres (textdiff_ops alg (deadline_of dlo) !dbg repair (item_oracles oa na) (ni (Array.length oa)) (ni (Array.length na))) in
+  let nt =
+    newline_flag
+      (match get_def h "nlo" "-" with "0" -> Some false | "1" -> Some true | _ -> None)
+      (kind = "lines")
+  in
+  { ops; probes = (if dlo = None then 0 else i c.probes); olds; news; otoks; ntoks; nt }
+
+let fmt_change (c : n list change) =
+  Printf.sprintf "%s:%s:%s:%s" (Core_cases.fmt_ctag c.ch_tag) (Core_cases.fmt_opt c.ch_old) (Core_cases.fmt_opt c.ch_new)
+    (hex c.ch_val)
+
+let lookup_of (l : n list list) : n list lookup =
+  let a = Array.of_list l in
+  fun k -> let x = i k in if x < Array.length a then Some a.(x) else None
+
+let case_textdiff h : string =
+  let kind = get h "tok" in
+  let d = text_diff h kind false in
+  let num, den = diff_ratio d.ops (ni (List.length d.olds)) (ni (List.length d.news)) in
+  let changes = unres (iter_all_changes (lookup_of d.olds) (lookup_of d.news) d.ops) in
+  (* "direct": capture_diff_slices on the token slices, no deadline *)
+  let direct =
+    let oa = Array.of_list (List.map str_of d.olds) and na = Array.of_list (List.map str_of d.news) in
+    fst (unres (capture_diff (parse_alg (get h "alg")) None !dbg false (item_oracles oa na) O (ni (Array.length oa)) O (ni (Array.length na))))
+  in
+  Printf.sprintf "ops=%s direct=%s nt=%d alg=%s probes=%d ratio=%ld otoks=%s ntoks=%s changes=%s perop_same=1" (fmt_ops d.ops)
+    (fmt_ops direct)
+    (if d.nt then 1 else 0)
+    (get h "alg") d.probes
+    (Core_cases.f32_bits_of_ratio (i num) (i den))
+    (fmt_toks d.otoks) (fmt_toks d.ntoks)
+    (join "," (List.map fmt_change changes))
+
+let case_udiff h : string =
+  let repair = get_def h "repair" "0" = "1" in
+  let d = text_diff h "lines" repair in
+  let radius = ni (int_of_string (get h "radius")) in
+  let header = if get h "header" = "1" then Some ([ n_of_int 97 ], [ n_of_int 98 ]) else None in
+  let via = get h "via" in
+  let hint = if via = "fn" then true else get h "hint" = "1" in
+  let lossy_values = via = "display" && bytes_mode h in
+  let out = unres (render_udiff d.olds d.news d.nt hint lossy_values d.ops radius header) in
+  if via = "display" then
+    let w = unres (render_udiff d.olds d.news d.nt hint false d.ops radius header) in
+    Printf.sprintf "out=%s writer_same=%d lossy_writer_same=%d" (hex out) (if w = out then 1 else 0)
+      (if lossy w = out then 1 else 0)
+  else "out=" ^ hex out
+
+let fmt_slices (v : (ctag * n list) list) =
+  join "," (List.map (fun (t, s) -> Printf.sprintf "%s:%s" (Core_cases.fmt_ctag t) (hex s)) v)
+
+let case_remap h : string =
+  let kind = get h "tok" in
+  let d = text_diff h kind false in
+  let o = unhex (get h "old") and n = unhex (get h "new") in
+  let tail bounds =
+    Printf.sprintf "ops=%s otoks=%s ntoks=%s bounds=%s" (fmt_ops d.ops) (fmt_toks d.otoks) (fmt_toks d.ntoks) bounds
+  in
+  if kind = "lines" then
+    let changes = unres (iter_all_changes (lookup_of d.olds) (lookup_of d.news) d.ops) in
+    let oa = Array.of_list d.otoks and na = Array.of_list d.ntoks in
+    let bounds =
+      join ","
+        (List.map
+           (fun c ->
+             let s, e =
+               match (c.ch_tag, c.ch_old, c.ch_new) with
+               | ChInsert, _, Some j -> na.(i j)
+               | _, Some k, _ -> oa.(i k)
+               | _ -> failwith "change without index"
+             in
+             Printf.sprintf "%s:%d:%d" (Core_cases.fmt_ctag c.ch_tag) (i s) (i e))
+           changes)
+    in
+    Printf.sprintf "slices=%s remapper_same=1 %s" (fmt_slices (List.map (fun c -> (c.ch_tag, c.ch_val)) changes)) (tail bounds)
+  else
+    let oidx = remap_indexes (List.map Model.length d.olds) O and nidx = remap_indexes (List.map Model.length d.news) O in
+    let v = unres (remap_ops o n oidx nidx d.ops) in
+    (* offsets of the slices: cumulative token lengths *)
+    let oa = Array.of_list oidx and na = Array.of_list nidx in
+    let bounds =
+      join ","
+        (List.concat_map
+           (fun op ->
+             let ob a b = Printf.sprintf "%d:%d" (i (fst oa.(i a))) (i (snd oa.(i b - 1))) in
+             let nb a b = Printf.sprintf "%d:%d" (i (fst na.(i a))) (i (snd na.(i b - 1))) in
+             match op with
+             | Equal (o, _, l) -> [ "E:" ^ ob o (add o l) ]
+             | Delete (o, l, _) -> [ "D:" ^ ob o (add o l) ]
+             | Insert (_, n, l) -> [ "I:" ^ nb n (add n l) ]
+             | Replace (o, l1, n, l2) -> [ "D:" ^ ob o (add o l1); "I:" ^ nb n (add n l2) ])
+           d.ops)
+    in
+    Printf.sprintf "slices=%s remapper_same=1 %s" (fmt_slices v) (tail bounds)
+
+let case_slices h : string =
+  let alg = parse_alg (get h "alg") in
+  let old = parse_list (get h "old") and nw = parse_list (get h "new") in
+  let s = { olda = Array.of_list old; newa = Array.of_list nw; ko = 0; kn = 0 } in
+  let ops, _ =
+    unres (capture_diff alg None !dbg false (oracles_of s) O (ni (List.length old)) O (ni (List.length nw)))
+  in
+  let sl = List.concat_map (fun op -> unres (iter_slices old nw op)) ops in
+  "slices="
+  ^ join ","
+      (List.map
+         (fun (t, s) -> Printf.sprintf "%s:%s" (Core_cases.fmt_ctag t) (String.concat "." (List.map string_of_int s)))
+         sl)
+
+(* uw=<hexline>~s:e.s:e;<hexline>~... : replayed unicode-word boundaries per line *)
+let parse_uw (s : string) : (string, (nat * nat) list) Hashtbl.t =
+  let t = Hashtbl.create 16 in
+  if s <> "-" then
+    List.iter
+      (fun ent ->
+        match String.split_on_char '~' ent with
+        | [ l; b ] ->
+            let toks =
+              if b = "" || b = "-" then []
+              else
+                List.map
+                  (fun x ->
+                    match String.split_on_char ':' x with
+                    | [ a; c ] -> (ni (int_of_string a), ni (int_of_string c))
+                    | _ -> failwith "uw bounds")
+                  (String.split_on_char '.' b)
+            in
+            Hashtbl.replace t l toks
+        | _ -> failwith "uw entry")
+      (String.split_on_char ';' s);
+  t
+
+let case_inline h : string =
+  let d = text_diff h "lines" false in
+  let uw = parse_uw (get h "uw") in
+  let words (line : n list) : (nat * nat) list =
+    match Hashtbl.find_opt uw (hex line) with Some t -> t | None -> failwith ("no word oracle for line " ^ hex line)
+  in
+  let idl = match Hashtbl.find_opt h "idl" with Some s -> parse_opt s | None -> None in
+  let probes = ref 0 in
+  let per_op =
+    List.map
+      (fun op ->
+        let chs = unres (inline_changes words (bytes_mode h) (deadline_of idl) !dbg false d.olds d.news op) in
+        join ","
+          (List.map
+             (fun ch ->
+               let vals = List.map (fun (e, v) -> Printf.sprintf "%d.%s" (if e then 1 else 0) (hex v)) ch.ic_vals in
+               let missing =
+                 match List.rev ch.ic_vals with
+                 | (_, v) :: _ -> not (ends_with_newline v)
+                 | [] -> false
+               in
+               Printf.sprintf "%s:%s:%s:%d:%s" (Core_cases.fmt_ctag ch.ic_tag) (Core_cases.fmt_opt ch.ic_old)
+                 (Core_cases.fmt_opt ch.ic_new)
+                 (if missing then 1 else 0)
+                 (join ";" vals))
+             chs))
+      d.ops
+  in
+  ignore probes;
+  Printf.sprintf "ops=%s inline=%s" (fmt_ops d.ops) (join "|" per_op)
+
+let case_identify h : string =
+  let old = parse_list (get h "old") and nw = parse_list (get h "new") in
+  let os, oe = parse_range (get h "or") and ns, ne = parse_range (get h "nr") in
+  let s = { olda = Array.of_list old; newa = Array.of_list nw; ko = 0; kn = 0 } in
+  let orc = oracles_of s in
+  let oids, nids = unres (identify_distinct orc.o_oo orc.o_nn orc.o_on (ni os) (ni oe) (ni ns) (ni ne)) in
+  let f l = join "," (List.map (fun x -> string_of_int (i x)) l) in
+  Printf.sprintf "oids=%s nids=%s or=%d:%d nr=%d:%d" (f oids) (f nids) os (os + List.length oids) ns (ns + List.length nids)
+
+let case_repeat h : string =
+  let alg = parse_alg (get h "alg") in
+  let old = parse_list (get h "old") and nw = parse_list (get h "new") in
+  let os, oe = parse_range (get h "or") and ns, ne = parse_range (get h "nr") in
+  let s = { olda = Array.of_list old; newa = Array.of_list nw; ko = 0; kn = 0 } in
+  let ops, _ = unres (capture_diff alg None !dbg false (oracles_of s) (ni os) (ni oe) (ni ns) (ni ne)) in
+  Printf.sprintf "ops=%s all_same=1" (fmt_ops ops)
+
+let run (comp : string) (h : (string, string) Hashtbl.t) : string =
+  try
+    match comp with
+    | "tok" -> case_tok h
+    | "utf8" -> case_utf8 h
+    | "ws" -> case_ws h
+    | "textdiff" -> case_textdiff h
+    | "udiff" -> case_udiff h
+    | "remap" -> case_remap h
+    | "slices" -> case_slices h
+    | "inline" -> case_inline h
+    | "identify" -> case_identify h
+    | "repeat" -> case_repeat h
+    | "close" -> "ORACLE"
+    | _ -> "UNKNOWN-COMPONENT " ^ comp
+  with
+  | RPanic -> "PANIC"
+  | RFuel -> "OUTOFFUEL"
+  | LossyOracle -> "ORACLE"
